@@ -555,10 +555,9 @@ def maxifs(max_range, *args):
         if isinstance(coords, str):
             return coords
 
-        return max(_numerics(
-            (max_range[r][c] for r, c in coords),
-            keep_bools=True
-        ))
+        data = _numerics((max_range[r][c] for r, c in coords), keep_bools=True)
+        # A returned string is an error code (an error value among the selected cells)
+        return data if isinstance(data, str) else max(data)
     except ValueError:
         return 0
 
@@ -597,10 +596,9 @@ def minifs(min_range, *args):
         if isinstance(coords, str):
             return coords
 
-        return min(_numerics(
-            (min_range[r][c] for r, c in coords),
-            keep_bools=True
-        ))
+        data = _numerics((min_range[r][c] for r, c in coords), keep_bools=True)
+        # A returned string is an error code (an error value among the selected cells)
+        return data if isinstance(data, str) else min(data)
     except ValueError:
         return 0
 
